@@ -24,6 +24,7 @@ type profile struct {
 	rule     string
 	pre      []func(h *Hist) // scripted preludes: the i-th one opens the i-th history of the stream (no limits configured there)
 	preT     []func(h *Hist) // further preludes of the thorough tier
+	preCfg   map[int]func(c *cfgT) // configuration of the i-th prelude's history (default: no limits)
 }
 
 var baseWeights = map[string]int{
@@ -931,6 +932,9 @@ func histStream(p profile) streamFn {
 			}
 			if i < len(pre) {
 				cfg.maxBalance, cfg.maxMint, cfg.maxMelt = 0, 0, 0
+				if f := p.preCfg[i]; f != nil {
+					f(&cfg)
+				}
 			}
 			h := NewHist(sink, rng, scratch, cfg, p.proj, p.prop)
 			h.actFund(false, false)
@@ -975,6 +979,23 @@ func preLateSettle(h *Hist) {
 	h.OpAdmin(adminReq{method: "issued_ecash"})
 	h.OpAdmin(adminReq{method: "total_balance"})
 	h.OpBalance(mode{})
+	h.nontrivial = true
+}
+
+// the melt limit applies to every melt quote, also to one for the mint's own invoice (C16); history configured with max melt 16
+func preInternalOverLimit(h *Hist) {
+	own := h.OpMintQuote(mode{}, 64, false, false, true)
+	if own == nil {
+		return
+	}
+	h.OpMeltQuote(mode{}, 0, own, 0, true, true, nil)     // own invoice, 64 sat: over the limit
+	h.OpMeltQuote(mode{}, 64000, nil, 0, true, true, nil) // foreign invoice, 64 sat: over the limit
+	h.OpMeltQuote(mode{}, 17000, nil, 0, true, true, nil) // one sat over
+	h.OpMeltQuote(mode{}, 16000, nil, 0, true, true, nil) // at the limit: granted
+	if own2 := h.OpMintQuote(mode{}, 16, false, false, true); own2 != nil {
+		h.OpMeltQuote(mode{}, 0, own2, 0, true, true, nil) // own invoice at the limit: granted
+	}
+	h.OpInfo(mode{})
 	h.nontrivial = true
 }
 
@@ -1099,6 +1120,7 @@ func init() {
 	register("c16-hist", "C16", histStream(profile{prop: "C16", histQ: 150, histT: 2500, minOps: 8, maxOps: 30, proj: 1,
 		fees: []uint{0, 100}, mppProb: 10, limits: true,
 		w: weightsWith(map[string]int{"balance": 16, "info": 12, "quote-bad": 10, "fund": 20, "melt": 10, "swap": 10, "overshoot": 8, "info-cycle": 10, "reconfigure": 6, "admin": 14}),
-		pre: []func(*Hist){preLateSettle, preLargeTotals}, preT: []func(*Hist){preOverflowTotals},
+		pre: []func(*Hist){preLateSettle, preLargeTotals, preInternalOverLimit}, preT: []func(*Hist){preOverflowTotals},
+		preCfg: map[int]func(*cfgT){2: func(c *cfgT) { c.maxMelt = 16 }},
 		rule: "histories under limit configurations (unset / small / at the boundary) with balance and info queries and quote requests near 2^63 and 2^64; non-trivial = a limit was configured"}))
 }
